@@ -18,6 +18,7 @@ import (
 	"encoding/json"
 	"fmt"
 	"os"
+	"runtime/debug"
 	"sort"
 	"strings"
 	"sync"
@@ -174,6 +175,9 @@ func guarded(f func()) (ms int64, ok bool, pnc string) {
 	go func() {
 		defer func() {
 			if r := recover(); r != nil {
+				if os.Getenv("C20_STACK") != "" {
+					fmt.Fprintln(os.Stderr, string(debug.Stack()))
+				}
 				done <- fmt.Sprint(r)
 				return
 			}
@@ -474,7 +478,7 @@ func runCase(c tcase) (res result) {
 			}
 			return run(fmt.Sprintf("op %d OpenWriter", i), func() opRes {
 				cfg := cesium.WriterConfig{
-					Start: telem.TimeStamp(tsBase + cs.tsN), Mode: mode(o.Mode), Sync: new(true),
+					Start: telem.TimeStamp(tsBase + cs.tsN + 1), Mode: mode(o.Mode), Sync: new(true),
 					ControlSubject: xcontrol.Subject{Key: fmt.Sprintf("w%d", o.W), Name: fmt.Sprintf("w%d", o.W)},
 				}
 				for _, k := range o.Chans {
